@@ -135,7 +135,9 @@ def e3(ctx):
             b = body_of(ctx, fl, name)
             ev, res = ctx.eval(b, no_inline=(r"alloc_slow_path_(optimistic|pessimistic)$", r"alloc_bytes_in$"))
             removed = projected_removed(b, ev, res)
-            pts = effect_points(b, res, fl)
+            feasible = b.reach(0, removed=frozenset(removed))
+            # effects on blocks that only a failed CAS reaches (e.g. undoing a mark after a lost unlink) do not exist with one thread
+            pts = [p for p in effect_points(b, res, fl) if p[2] in feasible]
             errs = [e for e in res.log if e["kind"] == "ret0" and not e["chain"] and tag(e["value"]) in ("variant",) and e["value"][2] == "Err"]
             errs += [e for e in res.log if e["kind"] == "ret0" and not e["chain"] and tag(e["value"]) == "vsum" and "Err" in dict(e["value"][2]) and "Ok" not in dict(e["value"][2])]
             n = 0
